@@ -64,7 +64,10 @@ def confirm(src, sid, pid):
                 m = re.match(r"cp\s+_seeded/\w+/(\S+)\s+(\S+)", l)
                 if m and [m.group(1), m.group(2)] not in places:
                     places.append([m.group(1), m.group(2)])
-                if re.match(r"(\(cd \S+ && )?go (test|run) ", l) and l not in cmds:
+                m = re.search(r"(demo\w*\.go|demo/main\.go)\s+(?:to|at|->|as)\s+(\S+\.go)", l)
+                if m and not places:
+                    places.append([m.group(1), m.group(2)])
+                if re.match(r"(\(cd \S+ && )?(go (test|run) |rm -rf app/)", l) and l not in cmds:
                     cmds.append(l)
         if not places or not cmds:
             print("RUN.txt must contain `PLACE <file> <relpath>` and `CMD <shell command>` lines"); return 1
